@@ -61,7 +61,7 @@ def F(W, o, name, impl):
 
 
 def _pred(x):
-    return x.key > 0
+    return x.key > 1  # deliberately not the items' own truth value (key > 0)
 
 
 def _term(name):
